@@ -40,7 +40,7 @@ let show cfg (s : state) =
     (int_of_n m.rpos) (int_of_n m.rcap) (if m.ihas then int_of_n m.istart else -1) (int_of_n m.ifill)
     (if int_of_n m.psize > 0 then int_of_n m.pstart else -1) (int_of_n m.psize) (int_of_n m.target) (int_of_n m.ptarget)
     (b2i m.cksum) (b2i m.ldm) (b2i m.rsync);
-  p " | ser %d %s" (int_of_n s.sr.s_next) (show_win s.sr.s_lw);
+  p " | ser %d %s %s" (int_of_n s.sr.s_next) (show_win s.sr.s_lw) (show_win s.sr.s_w);
   p " | pool %d %d %d %d %d %d" (match s.pl.q with None -> -1 | Some k -> int_of_nat k) (int_of_nat s.pl.busy)
     (int_of_n s.pl.bp_nb) (int_of_n s.pl.cp_av) (int_of_n s.pl.sp_nb) (b2i s.pl.sp_on);
   p " | jobs";
@@ -63,9 +63,13 @@ let show cfg (s : state) =
     let k = int_of_nat w.w_slot in
     p " %s" (match w.w_pc with
       | WIdle | WFinish -> "MP" | WAsleep -> "Zp" | WGetCCtx | WRelCCtx -> "MC" | WGetSeq | WRelSeq -> "MQ" | WGetBuf -> "MB"
-      | WJobErr | WChunk _ | WReport -> Printf.sprintf "MJ%d" k
+      | WSetDst | WJobErr | WChunk _ | WReport -> Printf.sprintf "MJ%d" k
       | WSerial | WEnsure -> "MS" | WSerialZ -> "Zs")) s.ws;
-  p " | g out=%d fin=%d ck=%d log=%d res=%d" (List.length s.gh.g_out) (List.length s.gh.g_fin) (List.length s.gh.g_ck) (List.length s.sr.s_log) (List.length s.cl.c_res);
+  (* the flush log as the harness observes it: number of copies, bytes, last copy (job id : offset : length) *)
+  let tot = List.fold_left (fun a (((_, _), _), n) -> a + int_of_n n) 0 s.gh.g_out in
+  let last = match List.rev s.gh.g_out with [] -> "-1:0:0" | (((_, i), o), n) :: _ -> Printf.sprintf "%d:%d:%d" (int_of_n i) (int_of_n o) (int_of_n n) in
+  p " | fl %d %d %s" (List.length s.gh.g_out) tot last;
+  p " | g fin=%d ck=%d log=%d res=%d" (List.length s.gh.g_fin) (List.length s.gh.g_ck) (List.length s.sr.s_log) (List.length s.cl.c_res);
   Buffer.contents buf
 
 let () =
@@ -98,8 +102,9 @@ let () =
            | _ -> Printf.printf "M DEAD\n")
       | "ENDCASE" ->
           (match !cfg, !st with
-           | Some c, Some s -> Printf.printf "F stuck=%d done=%d enabled=%s\n" (b2i (stuck c s)) (b2i (caller_done s))
+           | Some c, Some s -> Printf.printf "F stuck=%d done=%d enabled=%s res=%s\n" (b2i (stuck c s)) (b2i (caller_done s))
                                  (String.concat "," (List.map (fun t -> string_of_int (int_of_nat t)) (enabled_list c s)))
+                                 (String.concat "," (List.map (function RErr -> "E" | ROk v -> string_of_int (int_of_n v)) s.cl.c_res))
            | _ -> Printf.printf "F none\n")
       | _ -> ()
     end
